@@ -55,11 +55,33 @@ def Entry.isLink : Entry → Bool
   | .link _ => true
   | _ => false
 
-/-- a file that does not exist is reported as null and nothing changes -/
+theorem recoverMoved_free (ps dest p : Path) (fs : FS) (h : fs.get dest = none) :
+    recoverMoved ps dest p fs = (.null, fs) := by
+  unfold recoverMoved
+  split
+  · rfl
+  · rw [h]
+
+/-- a file that does not exist, and whose destination holds nothing, is
+reported as null and nothing changes -/
 theorem moveOutFile_missing (ps outs : Path) (name s : String) (p : Path) (fs : FS)
-    (hs : s ≠ "") (hp : parsePath s = some p) (hnone : fs.get p = none) :
+    (hs : s ≠ "") (hp : parsePath s = some p) (hnone : fs.get p = none)
+    (hfree : fs.get (outs ++ [name]) = none) :
     moveOutFile ps outs name (.str s) fs = (.null, fs) := by
-  simp [moveOutFile, hs, hp, hnone]
+  simp [moveOutFile, hs, hp, hnone, recoverMoved_free _ _ _ _ hfree]
+
+/-- interrupted earlier (file already under outs/, link not yet left behind):
+the destination is reported, the link is put in place, the destination is untouched -/
+theorem moveOutFile_recovered (ps outs : Path) (name s : String) (p : Path) (e : Entry) (fs : FS)
+    (hs : s ≠ "") (hp : parsePath s = some p) (hnone : fs.get p = none) (hin : inside ps p = true)
+    (hd : fs.get (outs ++ [name]) = some e) (hl : e.isLink = false) :
+    moveOutFile ps outs name (.str s) fs =
+      (.str (renderPath (outs ++ [name])),
+        symlinkAt fs p (.rel (relPath p.dropLast (outs ++ [name])))) := by
+  cases e with
+  | link t => simp [Entry.isLink] at hl
+  | file c => simp [moveOutFile, hs, hp, hnone, recoverMoved, hin, hd]
+  | dir => simp [moveOutFile, hs, hp, hnone, recoverMoved, hin, hd]
 
 /-- the empty string is reported as null -/
 theorem moveOutFile_empty (ps outs : Path) (name : String) (fs : FS) :
@@ -205,7 +227,13 @@ theorem moveOutFile_shape (ps outs : Path) (name : String) (v : J) (fs : FS) :
     · split
       · exact Or.inl rfl
       · split
-        · exact Or.inl rfl
+        · unfold recoverMoved
+          split
+          · exact Or.inl rfl
+          · split
+            · exact Or.inr (Or.inr ⟨_, rfl⟩)
+            · exact Or.inr (Or.inr ⟨_, rfl⟩)
+            · exact Or.inl rfl
         · next t _ =>
           rcases copyOutSymlink_shape ps (outs ++ [name]) (.str s) _ t (mkdirAll fs outs) with h | h
           · exact Or.inr (Or.inl h)
